@@ -13,7 +13,7 @@ Local Open Scope Z_scope.
 (* longest prefix of characters satisfying p, and the rest ({[01]+} etc. are greedy and never give back) *)
 Fixpoint span (p : Z -> bool) (s : str) : str * str :=
   match s with
-  | c :: r => if p c then (c :: fst (span p r), snd (span p r)) else ([], s)
+  | c :: r => if p c then (let sr := span p r in (c :: fst sr, snd sr)) else ([], s)
   | [] => ([], [])
   end.
 
@@ -96,13 +96,15 @@ Inductive tlit := TInt (x : bint) | TFloat | TMalformed | TOther.
 Definition bn_from_text (s : str) : tlit :=
   if has_prefix 98 66 s then
     match split_bin s with
-    | None => TMalformed                                   (* assert(int, 'malformed binary number') *)
+    | None => TMalformed   (* an error is raised: meant to be assert(int, 'malformed binary number'); in fact lpeglabel returns
+                              nil, 'fail', pos on a failed match, the label passes the assert and arithmetic on nil raises later *)
     | Some (neg, int, None, None) => match bn_from_bin neg int with Ok x => TInt x | Err _ => TMalformed end
     | Some _ => TOther                                     (* fraction / exponent: float code *)
     end
   else if has_prefix 120 88 s then
     match split_hex s with
-    | None => TMalformed
+    | None => TOther   (* lpeglabel's failure label passes assert(int) and the failure position is a truthy `frac`: the code
+                          then tries tonumber(v) (which e.g. accepts trailing white space) and raises only if that fails: not modelled *)
     | Some (neg, int, None, None) => match bn_from_hex neg int with Ok x => TInt x | Err _ => TMalformed end
     | Some _ => TFloat                                     (* n + 0.0: always a float *)
     end
